@@ -49,34 +49,34 @@ def plan(pid, tier, seed):
         S += scen.enum_trees(tier, seed)
     if pid in ("C01", "C04", "C05"):
         S += scen.directed(pid, tier)
-        S += [gen.random_history(base + i, nblocks=n(tier, 14, 22), heavy_probes=True) for i in range(n(tier, 40, 200))]
+        S += [gen.random_history(base + i, nblocks=n(tier, 14, 22), heavy_probes=True) for i in range(n(tier, 40, 1000))]
         S += [gen.random_history(base + 500 + i, net=nt, full=False, nblocks=n(tier, 14, 22), heavy_probes=True)
-              for i, nt in enumerate(["mainnet", "testnet"] * n(tier, 8, 50))]
+              for i, nt in enumerate(["mainnet", "testnet"] * n(tier, 8, 200))]
         M += models.for_property(pid, tier)
     elif pid in ("C02", "C03"):
         S += scen.directed(pid, tier)
-        S += [gen.random_history(base + i, nblocks=n(tier, 16, 26), diffs=(1, 2, 3), defects=False) for i in range(n(tier, 40, 200))]
+        S += [gen.random_history(base + i, nblocks=n(tier, 16, 26), diffs=(1, 2, 3), defects=False) for i in range(n(tier, 40, 1000))]
         S += [gen.random_history(base + 500 + i, net=nt, full=False, nblocks=n(tier, 16, 26), diffs=(1, 2, 3, 5, 8))
-              for i, nt in enumerate(["mainnet", "testnet", "regtest"] * n(tier, 8, 40))]
-        S += [scen.stability_history(base + 800 + i) for i in range(n(tier, 150, 1000))]
+              for i, nt in enumerate(["mainnet", "testnet", "regtest"] * n(tier, 8, 150))]
+        S += [scen.stability_history(base + 800 + i) for i in range(n(tier, 150, 4000))]
         S += tlcgen.corpus_scenarios(seed, n(tier, 150, 600))
         M += models.for_property(pid, tier)
     elif pid in ("C06",):
         S += scen.directed(pid, tier)
-        S += [scen.paging_history(base + i, nblocks=n(tier, 12, 20)) for i in range(n(tier, 40, 300))]
+        S += [scen.paging_history(base + i, nblocks=n(tier, 12, 20)) for i in range(n(tier, 40, 1500))]
         S += [scen.big_address_history(seed, per_block=1100, nblocks=n(tier, 3, 5))]
         M += models.for_property(pid, tier)
     elif pid in ("C07", "C08"):
         S += scen.directed(pid, tier)
-        S += [scen.sliced_history(base + i, nblocks=n(tier, 10, 16)) for i in range(n(tier, 40, 300))]
+        S += [scen.sliced_history(base + i, nblocks=n(tier, 10, 16)) for i in range(n(tier, 40, 1500))]
         M += models.for_property(pid, tier)
     elif pid == "C09":
         S += scen.directed(pid, tier)
-        S += [scen.upgrade_history(base + i, nblocks=n(tier, 12, 18)) for i in range(n(tier, 40, 300))]
+        S += [scen.upgrade_history(base + i, nblocks=n(tier, 12, 18)) for i in range(n(tier, 40, 1500))]
         M += models.for_property(pid, tier)
     elif pid in ("C10", "C13", "C14", "C15", "C20"):
         S += scen.directed(pid, tier)
-        S += [scen.profile_history(pid, base + i, tier) for i in range(n(tier, 40, 300))]
+        S += [scen.profile_history(pid, base + i, tier) for i in range(n(tier, 40, 1500))]
         if pid in ("C10", "C14", "C20"):
             S += tlcgen.corpus_scenarios(seed, n(tier, 100, 600))
         if pid == "C15" and tier == "thorough":
@@ -85,11 +85,11 @@ def plan(pid, tier, seed):
             S += [scen.fee_cut_history(seed, per_block=40, nblocks=3)]
         M += models.for_property(pid, tier)
     elif pid == "C16":
-        S += [scen.cycles_history(base + i, nblocks=n(tier, 8, 14)) for i in range(n(tier, 40, 300))]
-        S += [scen.sendtx_history(base + 700 + i, n=n(tier, 40, 150)) for i in range(n(tier, 12, 60))]
+        S += [scen.cycles_history(base + i, nblocks=n(tier, 8, 14)) for i in range(n(tier, 40, 1500))]
+        S += [scen.sendtx_history(base + 700 + i, n=n(tier, 40, 150)) for i in range(n(tier, 12, 200))]
         M += models.for_property(pid, tier)
     elif pid == "C19":
-        S += [scen.sendtx_history(base + i, n=n(tier, 150, 400)) for i in range(n(tier, 40, 400))]
+        S += [scen.sendtx_history(base + i, n=n(tier, 150, 400)) for i in range(n(tier, 40, 1500))]
         M += models.for_property(pid, tier)
     else:
         raise runner.ToolError(f"no plan for property {pid}")
